@@ -483,8 +483,8 @@ impl Property for C16 {
     }
     fn cases(&self, tier: Tier) -> u64 {
         match tier {
-            Tier::Quick => 2_500,
-            Tier::Thorough => 60_000,
+            Tier::Quick => 24_000,
+            Tier::Thorough => 500_000,
         }
     }
     fn strategy(&self, _tier: Tier) -> BoxedStrategy<CliCase> {
@@ -547,6 +547,6 @@ impl Property for C16 {
     }
     fn floors(&self, tier: Tier) -> Vec<(&'static str, u64)> {
         let q = if tier == Tier::Quick { 1 } else { 20 };
-        vec![("nontrivial", 150 * q), ("run:limited", 100 * q), ("error:unbalanced", 60 * q), ("error:file-cannot-be-opened", 30 * q), ("print:PrintIr", 20 * q), ("strace-probe", 30 * q), ("non-default-configuration", 400 * q)]
+        vec![("nontrivial", 1500 * q), ("run:limited", 1000 * q), ("error:unbalanced", 600 * q), ("error:file-cannot-be-opened", 300 * q), ("print:PrintIr", 200 * q), ("strace-probe", 200 * q), ("non-default-configuration", 4000 * q), ("limit-output-reveals-backend-family", 200 * q), ("print-ir-reveals-level", 100 * q)]
     }
 }
